@@ -75,12 +75,31 @@ impl TransportVisitor for V {
         co.borrow_mut().poll_on_spin = false;
         co.borrow_mut().spin_horizon = 12;
         cosim::install(&co);
+        // Script for a blocking receive: 1 = at the next busy-wait iteration the device sets
+        // DEVICE_NEEDS_RESET in its status, 2 = at the next one it delivers a frame all the same.
+        let wait_state: std::rc::Rc<std::cell::Cell<u8>> = std::rc::Rc::new(std::cell::Cell::new(0));
         {
             // The device polls exactly the queues on which it suppressed notifications.
             let c2 = co.clone();
+            let ws = wait_state.clone();
             mmio::set_spin_handler(Some(Box::new(move |site| {
                 let mut c = c2.borrow_mut();
                 c.spins += 1;
+                match ws.get() {
+                    1 => {
+                        c.dev.borrow_mut().status |= 0x40;
+                        ws.set(2);
+                    }
+                    2 => {
+                        let mut f = vec![0u8; 12];
+                        f.extend([9u8; 20]);
+                        if c.held_count(0) > 0 {
+                            c.complete_held(0, 0, &f, f.len() as u32);
+                        }
+                        ws.set(0);
+                    }
+                    _ => {}
+                }
                 for q in c.suppressed.clone() {
                     c.service(q);
                 }
@@ -197,6 +216,28 @@ impl TransportVisitor for V {
                 let tt = op!("transmit_begin", unsafe { n.transmit_begin(&tx) });
                 if let Some(Ok(tt)) = tt {
                     op!("transmit_complete", unsafe { n.transmit_complete(tt, &tx) });
+                }
+                // A blocking receive during which the device reports DEVICE_NEEDS_RESET before it
+                // delivers the frame: however the call ends, the caller's buffer must not stay
+                // shared with the device once the call has returned.
+                {
+                    while co.borrow_mut().held_count(0) > 0 {
+                        // (Buffers posted earlier are used up first.)
+                        co.borrow_mut().complete_held(0, 0, &frame, frame.len() as u32);
+                        if let Some(t) = n.poll_receive() {
+                            let _ = unsafe { n.receive_complete(t, if t == 0 { &mut b1 } else { &mut b2 }) };
+                        }
+                    }
+                    let mut b3 = vec![0u8; 2048];
+                    wait_state.set(1);
+                    let r = op!("receive_wait(device needs reset)", n.receive_wait(&mut b3));
+                    wait_state.set(0);
+                    co.borrow().dev.borrow_mut().status &= !0x40;
+                    let (lo, hi) = (b3.as_ptr() as usize, b3.as_ptr() as usize + b3.len());
+                    let still = hal::with(|h| h.live_shares_in(lo, hi).len());
+                    if still != 0 && LEDGER_MODE.with(|m| m.get()) {
+                        report(Violation::new("C04", "driver:returned-while-shared", format!("net driver: receive_wait returned {:?} with its buffer still shared with the device ({} live ranges)", r.map(|x| x.map(|_| ())), still)));
+                    }
                 }
                 // Two transmissions in flight: the second is submitted before the completion of
                 // the first (which the device has already used) has been consumed.
@@ -358,11 +399,10 @@ impl TransportVisitor for V {
             }
         }
         // Every request of the script has been completed and consumed: what is shared now is what
-        // was shared when the driver was idle after construction (plus the receive buffers the
-        // raw net script deliberately leaves posted).
+        // was shared when the driver was idle after construction.
         if LEDGER_MODE.with(|m| m.get()) {
             let now = hal::with(|h| h.live_share_count());
-            let extra = if kind == Kind::NetRaw { 2 } else { 0 };
+            let extra = 0;
             // The console script ends with received data still unread: its receive buffer is
             // legitimately not posted at that point.
             // (A net receive buffer completed with less than a header may be given up.)
